@@ -640,6 +640,62 @@ pub fn record_c04(a: &Args) -> usize {
         emit(&mut out, f2m_event(rng.r#gen(), ty, b":00000001FF", false));
         emit(&mut out, f2m_event(rng.r#gen(), ty, b":0100030400F8\r\n", false));
     }
+    // payloads the rest of the library gives a meaning to: every sign type's configuration block -- genuine, with one byte
+    // changed at each position, with its tail zeroed / set / random, cut short and extended -- under the low message types
+    for t in crate::ctl::ALL_TYPES.iter() {
+        let block = t.to_bytes().to_vec();
+        for ty in [0u8, 1, 2, 3, 6] {
+            if ty != 0 && !thorough && rng.gen_bool(0.5) {
+                continue;
+            }
+            emit(&mut out, f2m_event(rng.r#gen(), ty, &block, true));
+            for k in 0..16 {
+                let mut d = block.clone();
+                d[k] ^= 1 << rng.gen_range(0..8);
+                emit(&mut out, f2m_event(rng.r#gen(), ty, &d, false));
+            }
+            for keep in [2usize, 3, 4, 8, 15] {
+                for fill in [Some(0x00u8), Some(0xFF), None] {
+                    let mut d = block.clone();
+                    for x in d.iter_mut().skip(keep) {
+                        *x = fill.unwrap_or_else(|| rng.r#gen());
+                    }
+                    emit(&mut out, f2m_event(rng.r#gen(), ty, &d, true));
+                }
+            }
+            emit(&mut out, f2m_event(rng.r#gen(), ty, &block[..15], false));
+            let mut d = block.clone();
+            d.extend_from_slice(&block);
+            emit(&mut out, f2m_event(rng.r#gen(), ty, &d, false));
+            d.push(0);
+            emit(&mut out, f2m_event(rng.r#gen(), ty, &d, false));
+        }
+    }
+    // uniform and periodic payloads at every length (blank / lit pixel rows, padding, a repeated 16-byte row)
+    for ty in [0u8, 1, 2, 6] {
+        for len in 1..=255usize {
+            if !(thorough || ty == 0 || len % 16 <= 1 || rng.gen_bool(0.1)) {
+                continue;
+            }
+            for fill in [0x00u8, 0xFF, 0x55, 0x10] {
+                emit(&mut out, f2m_event(rng.r#gen(), ty, &vec![fill; len], len % 2 == 0));
+            }
+            let row = rand_bytes(&mut rng, 16);
+            let d: Vec<u8> = (0..len).map(|i| row[i % 16]).collect();
+            emit(&mut out, f2m_event(rng.r#gen(), ty, &d, true));
+            // a page-shaped payload: header, blank columns, 0xFF padding
+            let mut d = vec![0u8; len];
+            d[0] = rng.r#gen();
+            if len > 1 {
+                d[1] = 0x10;
+            }
+            let pad = rng.gen_range(0..16usize).min(len.saturating_sub(4));
+            for x in d.iter_mut().rev().take(pad) {
+                *x = 0xFF;
+            }
+            emit(&mut out, f2m_event(rng.r#gen(), ty, &d, false));
+        }
+    }
     // random frames of any length
     let nr = if thorough { 30_000 } else { 1_500 };
     for _ in 0..nr {
@@ -723,6 +779,32 @@ pub fn record_c05(a: &Args) -> usize {
         }
     }
     emit(&mut out, Message::SendData(Offset(0), Data::try_new(b":00000001FF".to_vec()).unwrap()));
+    // data chunks the rest of the library gives a meaning to: configuration blocks (genuine, doctored tails), blank / lit /
+    // periodic pixel rows of every whole number of rows and the lengths next to them
+    for t in crate::ctl::ALL_TYPES.iter() {
+        let block = t.to_bytes().to_vec();
+        emit(&mut out, Message::SendData(Offset(0), Data::try_new(block.clone()).unwrap()));
+        for keep in [2usize, 4, 15] {
+            for fill in [Some(0x00u8), Some(0xFF), None] {
+                let mut d = block.clone();
+                for x in d.iter_mut().skip(keep) {
+                    *x = fill.unwrap_or_else(|| rng.r#gen());
+                }
+                emit(&mut out, Message::SendData(Offset(rng.gen_range(0..3) * 16), Data::try_new(d).unwrap()));
+            }
+        }
+    }
+    for len in 1..=255usize {
+        if !(thorough || len % 16 <= 1 || len % 16 == 15 || rng.gen_bool(0.1)) {
+            continue;
+        }
+        for fill in [0x00u8, 0xFF, 0x55] {
+            emit(&mut out, Message::SendData(Offset(rng.r#gen()), Data::try_new(vec![fill; len]).unwrap()));
+        }
+        let row = rand_bytes(&mut rng, 16);
+        let d: Vec<u8> = (0..len).map(|i| row[i % 16]).collect();
+        emit(&mut out, Message::SendData(Offset(rng.r#gen()), Data::try_new(d).unwrap()));
+    }
     // the same trip through a byte stream: batches of messages written back to back with Frame::write and read again with
     // Frame::read (a 255-byte chunk followed by short messages, and so on)
     let mut batch: Vec<Message<'static>> = vec![];
